@@ -141,7 +141,11 @@ def run(chk):
     for fname in ("init_upload", "init_download"):
         f = repo.func(SV, f"SdoServer.{fname}", "C07.R6")
         fs = ff_for(chk, f, "C07.R6")
-        bufs = [n for n in fs.cfg.nodes if n.kind == "stmt" and isinstance(n.ast, ast.Assign) and dotted(n.ast.targets[0]) == "self._buffer"]
+        bufs = [n for n in fs.cfg.nodes if n.kind == "stmt" and (
+            (isinstance(n.ast, ast.Assign) and (dotted(n.ast.targets[0]) == "self._buffer" or
+                                                (isinstance(n.ast.targets[0], ast.Subscript) and dotted(n.ast.targets[0].value) == "self._buffer")))
+            or (isinstance(n.ast, ast.Delete) and isinstance(n.ast.targets[0], ast.Subscript) and dotted(n.ast.targets[0].value) == "self._buffer")
+            or node_calls(n, "self._buffer.clear"))]
         togs = [n for n in fs.cfg.nodes if n.kind == "stmt" and isinstance(n.ast, ast.Assign) and dotted(n.ast.targets[0]) == "self._toggle"
                 and folder.try_fold(n.ast.value, Scope(f.mod), None) == 0]
         chk.floor("R6", len(bufs), 1, f"segmented-transfer buffer set-up in {fname}")
